@@ -23,7 +23,10 @@ import (
 // For P the harness computes url.Parse(..).Path and path.Join (stdlib) and passes them to the model
 // as inputs; base path and pattern travel along so that a case can be re-executed.
 func init() {
-	proto.Register(&proto.Prop{ID: "C10", Gen: c10Gen, Exec: c10Exec})
+	proto.Register(&proto.Prop{ID: "C10", Gen: c10Gen, Exec: c10Exec, Corpus: [][]string{
+		// F10a (known finding): an empty value in the first segment makes the path start with "//"
+		{"P", proto.B("/{a}/pets"), proto.B("/{a}/pets"), proto.L([]string{"a"}), proto.L([]string{""}), proto.B(""), proto.B("/{a}/pets")},
+	}})
 }
 
 type c10Writer struct {
